@@ -83,4 +83,8 @@ def handleLin : List Sx → Sx
     | _, _, _ => Sx.bad
   | _ => Sx.bad
 
+/-- request names served by this module (collected into `JinjaV.Wire.All` by tools/gen_wire_all.py) -/
+def handlers : List (String × (List Sx → Sx)) :=
+  [("lru", handle), ("lru-lin", handleLin)]
+
 end JinjaV.Wire.LRU
